@@ -63,7 +63,9 @@ type Config struct {
 	MaxSamples  int
 	Verbose     bool
 	InitPkgs    []string // packages whose init functions are interpreted (others skipped)
-	DumpDir     string   // when set, property obligations are written there as .smt2 files
+	DumpDir     string   // when set, sampled property obligations are written there as .smt2 files
+	DumpEvery   int
+	DumpMax     int
 }
 
 type Finding struct {
@@ -99,6 +101,7 @@ type Result struct {
 	Decisions    int64
 	MaxDepth     int
 	TimedOut     bool
+	DumpVerdicts map[int]string // obligation file number -> z3 verdict
 }
 
 type shared struct {
@@ -114,6 +117,9 @@ type shared struct {
 	findIdx            map[string]*Finding
 	cond               *sync.Cond
 	stop               bool
+	dumpSeen, dumped   int
+	dumpLast           map[*interpreter]int
+	DumpVerdicts       map[int]string
 	reflectOnce        sync.Once
 	reflectPackage     *ssa.Package
 	errorMethods       methodSet
@@ -351,6 +357,9 @@ func (i *interpreter) checkAssert(c value, label string) {
 				i.dumpObligation(neg, label)
 			}
 			r := i.sol.check(neg)
+			if i.cfg.DumpDir != "" {
+				i.recordDumpVerdict(r)
+			}
 			switch r {
 			case "sat":
 				ps.model = i.sol.getModel(ps.vars)
@@ -375,8 +384,42 @@ func (i *interpreter) checkAssert(c value, label string) {
 	}
 }
 
+// dumpObligation writes one property obligation (path condition and negated assertion) as a
+// standalone SMT-LIB2 file so that other solvers can re-decide it.
 func (i *interpreter) dumpObligation(neg *Term, label string) {
-	// TODO: cross-solver dump (thorough tier); the pipe transcript is in GOSYM_SMTLOG
+	sh := i.sh
+	sh.mu.Lock()
+	sh.dumpSeen++
+	n := sh.dumpSeen
+	take := sh.dumped < sh.cfg.DumpMax && (n <= 20 || n%sh.cfg.DumpEvery == 0)
+	if take {
+		sh.dumped++
+	}
+	k := sh.dumped
+	sh.mu.Unlock()
+	if !take {
+		return
+	}
+	negStr := i.sol.pr.str(neg) // may emit definitions (recorded in hist)
+	var sb strings.Builder
+	sb.WriteString("; obligation " + label + "\n")
+	for _, l := range i.sol.hist {
+		sb.WriteString(l + "\n")
+	}
+	sb.WriteString("(assert " + negStr + ")\n(check-sat)\n")
+	os.WriteFile(fmt.Sprintf("%s/ob%05d.smt2", sh.cfg.DumpDir, k), []byte(sb.String()), 0o644)
+	i.lastDump = k
+}
+
+// recordDumpVerdict remembers z3's verdict for the obligation just dumped by this interpreter.
+func (i *interpreter) recordDumpVerdict(r string) {
+	if i.lastDump == 0 {
+		return
+	}
+	i.sh.mu.Lock()
+	i.sh.res.DumpVerdicts[i.lastDump] = r
+	i.sh.mu.Unlock()
+	i.lastDump = 0
 }
 
 const ndPkg = "github.com/GuanceCloud/platypus/internal/verifnd."
@@ -605,7 +648,15 @@ func Explore(prog *ssa.Program, entry *ssa.Function, inits []*ssa.Function, cfg 
 		cfg.MaxSamples = 24
 	}
 	sh := &shared{prog: prog, sizes: &types.StdSizes{WordSize: 8, MaxAlign: 8}, cfg: cfg, inits: inits, entry: entry,
-		res: &Result{Reach: map[string]int{}, Inconclusive: map[string]int{}, Funcs: map[string]int64{}}, findIdx: map[string]*Finding{}}
+		res: &Result{Reach: map[string]int{}, Inconclusive: map[string]int{}, Funcs: map[string]int64{}, DumpVerdicts: map[int]string{}}, findIdx: map[string]*Finding{}}
+	if cfg.DumpDir != "" {
+		if cfg.DumpEvery <= 0 {
+			cfg.DumpEvery = 50
+		}
+		if cfg.DumpMax <= 0 {
+			cfg.DumpMax = 150
+		}
+	}
 	sh.cond = sync.NewCond(&sh.mu)
 	sh.work = [][]decision{{}}
 	var wg sync.WaitGroup
@@ -625,6 +676,7 @@ func Explore(prog *ssa.Program, entry *ssa.Function, inits []*ssa.Function, cfg 
 
 func (sh *shared) worker() {
 	sol := newSolver(sh.cfg.SolverBin, sh.cfg.QueryMs)
+	sol.keep = sh.cfg.DumpDir != ""
 	defer sol.close()
 	defer func() {
 		sh.mu.Lock()
